@@ -975,8 +975,19 @@ class XMLSchemaBase(XsdValidator, ElementPathMixin[Union[SchemaType, XsdElement]
                 xsd_elements = self.findall(path[:-1] + tag, namespaces)
             except (ElementPathError, AssertionError):
                 # A tag not usable in a path (e.g. an invalid namespace URI, also
-                # refused by an assertion of the XPath parser if it starts with a digit)
+                # refused by an assertion of the XPath parser if it starts with a digit):
+                # for a path of child steps use a model-less match of the names
                 xsd_elements = []
+                steps = re.findall(r'/((?:{[^}]*})?[^/{}\[\]()*@:]+)', path[:-1])
+                if steps and ''.join(f'/{x}' for x in steps) + '/' == path[:-1]:
+                    xsd_element = self.maps.elements.get(steps[0])
+                    for name in steps[1:] + [tag]:
+                        if not isinstance(xsd_element, XsdElement) or \
+                                xsd_element.type.model_group is None:
+                            break
+                        xsd_element = xsd_element.type.model_group.match_element(name)
+                    else:
+                        xsd_elements = [xsd_element]
 
             # An unqualified tag matches also the same local name in the default
             # namespace: the declaration with the same name is not always the first
@@ -1388,7 +1399,21 @@ class XMLSchemaBase(XsdValidator, ElementPathMixin[Union[SchemaType, XsdElement]
                             xsd_ancestors = cast(list[XsdElement],
                                                  schema.findall(path_, namespaces)[1:])
                         except (ElementPathError, AssertionError):
-                            xsd_ancestors = []  # names of the XML data not usable in a path
+                            # Names of the XML data not usable in a path: use a model-less
+                            # match of the names, from the global declaration of the root
+                            xsd_ancestors = []
+                            xsd_ancestor = schema.maps.elements.get(ancestors[0].tag)
+                            for e in ancestors[1:]:
+                                if xsd_ancestor is None:
+                                    break
+                                xsd_ancestors.append(xsd_ancestor)
+                                xsd_child = None
+                                if xsd_ancestor.type.model_group is not None:
+                                    xsd_child = xsd_ancestor.type.model_group.match_element(e.tag)
+                                xsd_ancestor = xsd_child \
+                                    if isinstance(xsd_child, XsdElement) else None
+                            if xsd_ancestor is not None:
+                                xsd_ancestors.append(xsd_ancestor)
 
                         # Clear identity constraints counters
                         for k, e in enumerate(xsd_ancestors[k:], start=k):
@@ -1444,11 +1469,14 @@ class XMLSchemaBase(XsdValidator, ElementPathMixin[Union[SchemaType, XsdElement]
                         group = parent.type.model_group
                         if group is None:
                             continue
-                        for e in group.iter_elements():
-                            if isinstance(e, XsdAnyElement) and e.is_matching(elem.tag) \
-                                    and e.process_contents != 'skip':
-                                xsd_element = e
-                                break
+                        matched = group.match_element(elem.tag)
+                        if isinstance(matched, XsdAnyElement):
+                            if matched.process_contents == 'skip':
+                                continue
+                            xsd_element = matched
+                        elif isinstance(matched, XsdElement):
+                            # A declaration not found by path (a name not usable in XPath)
+                            xsd_element = matched
                         else:
                             continue
                     else:
